@@ -117,6 +117,9 @@ type world struct {
 	jtiSeen    map[string]bool
 }
 
+var uuidRe = regexp.MustCompile(`^[0-9a-f]{8}-[0-9a-f]{4}-[0-9a-f]{4}-[0-9a-f]{4}-[0-9a-f]{12}$`)
+var lastIssued = map[string]string{} // the state and nonce of the previous login redirect of this process
+
 var rawURIs = []string{"/x", "/a/b?c=d&e=f", "/", "//evil.test/p", "/\\evil.test/p", "/%2Fevil.test", "/.//evil.test", "/x/../../evil.test", "/p?next=http://evil.test/", "/@evil.test", "/deep/path/with/segments?q=1",
 	"/./%5Cevil.test/", "/a/../%5Cevil.test/x", "/%09/evil.test/", "/./%2Fevil.test/", "/a/%2E%2E/%2Fevil.test", "/%5C%5Cevil.test", "/x/..%2F..%2F%5Cevil.test",
 	// raw backslashes and dot segments: what the redirect helper's path cleaning may turn into a leading "/\" or "//"
@@ -683,6 +686,34 @@ func (w *world) observe(rs reqSpec, r *http.Request, clientHdrs [][]string, rec 
 			}
 			w.allRandoms[pair[0]] = pair[1]
 		}
+		// unpredictable: two states (or nonces) of one deployment share no more hexadecimal / base64 digits than chance allows, and a
+		// UUID-shaped state is a version-4 (random) UUID
+		if uuidRe.MatchString(st) && st[14] != '4' {
+			T.oracle("C03", "the state is a UUID that is not of the random version (4)", M{"version_digit": string(st[14])}, w.replay())
+		}
+		if prev := lastIssued["state"]; prev != "" && len(prev) == len(st) {
+			same := 0
+			for i := range st {
+				if st[i] == prev[i] && st[i] != '-' {
+					same++
+				}
+			}
+			if same >= 16 {
+				T.oracle("C03", "two states issued by the deployment share most of their digits (predictable)", M{"equal_positions": same, "of": len(st)}, w.replay())
+			}
+		}
+		if prev := lastIssued["nonce"]; prev != "" && len(prev) == len(no) {
+			same := 0
+			for i := range no {
+				if no[i] == prev[i] {
+					same++
+				}
+			}
+			if same >= 16 {
+				T.oracle("C03", "two nonces issued by the deployment share most of their characters (predictable)", M{"equal_positions": same, "of": len(no)}, w.replay())
+			}
+		}
+		lastIssued["state"], lastIssued["nonce"] = st, no
 		if len(st) < 32 || len(no) < 32 {
 			T.oracle("C03", "state or nonce shorter than 32 characters", M{"state": len(st), "nonce": len(no)}, w.replay())
 		}
